@@ -14,6 +14,8 @@ events (`t` = tick; booleans 0/1; `-` = none):
   `L@t:sv:code:exc`      the suspended render of task `sv` returns `code` / raises
   `W@t:sv:acc:plan…`     task `sv` runs one step; `acc` = add_observation accepts;
                          plan = `-` (no render starts) | `s` (render suspends) | `i:code:exc`
+  `WF@t:sv:acc:plan…`    the same, and `sendmsg()` raises for the first datagram the step hands to the
+                         transport (a transport error reported synchronously, from inside the send)
 
 Before an event at `t` the message-layer timers due before `t` fire earliest-first (for `W`, whose
 cause may be such a timer: due up to and including `t`); a timer due exactly at the `t` of any other
@@ -26,6 +28,7 @@ open Aiocoap.MsgLayer (parseBool parseOpt optNatStr outStr)
 
 def outStr' : Out → String
   | .net o => outStr o
+  | .sendFailed t r w => s!"f@{t}:{r}:{MsgLayer.wireStr w}"
   | .count n => s!"c:{n}"
   | .cancelled sv => s!"k:{sv}"
   | .render sv ver => s!"g:{sv}:{ver}"
@@ -50,6 +53,8 @@ def parseEv (s : String) : Option (Nat × Option Ev) :=
       pure (← t.toNat?, some (.release (← sv.toNat?) (← code.toNat?) (← parseBool exc)))
     | "W", t :: sv :: acc :: plan => do
       pure (← t.toNat?, some (.step (← sv.toNat?) (← parsePlan plan) (← parseBool acc)))
+    | "WF", t :: sv :: acc :: plan => do
+      pure (← t.toNat?, some (.stepFail (← sv.toNat?) (← parsePlan plan) (← parseBool acc)))
     | _, _ =>
       match MsgLayer.parseEvent s with
       | some (t, some (.recv r mcl w)) => some (t, some (.recv r mcl w))
@@ -85,6 +90,7 @@ def advance (fuel : Nat) (c : State) (bound : Nat) : State × List String :=
 
 def isStep : Option Ev → Bool
   | some (.step _ _ _) => true
+  | some (.stepFail _ _ _) => true
   | _ => false
 
 def runScript (c : State) : List (Nat × Option Ev) → List String × Bool × State
